@@ -41,6 +41,7 @@ def build(rn, ob):
     open(deff, 'w').write('\n'.join(sorted(defined)) + '\n')
     cmd = [sys.executable, os.path.join(VERIF, 'ir2c.py'), mll, '-o', mc, '--report', rep, '--defined', deff, '--e2-main', ob.entry, '--e2-thread-entry', THREAD_ENTRY]
     if ob.e2_setup: cmd += ['--e2-setup', ob.e2_setup]
+    if 'RACE' in ob.defs: cmd += ['--race-instrument']
     for b in BLOCKING: cmd += ['--blocking', b]
     for s in ob.extra_stub: cmd += ['--stub', s]
     rc, so, se, w, _ = run(cmd, timeout=300)
@@ -74,7 +75,7 @@ def cbmc(rn, ob, mc):
     d = rn.odir(ob)
     cd = dict(ob.cdefs); cd['VERIF_NO_WITNESS'] = None
     K = int(cd.get('VERIF_K', 8)); MT = int(cd.get('VERIF_MAXT', 3)); MM = int(cd.get('VERIF_MAXM', 8))
-    us = {'verif_e2_run.0': max(K, MT) + 1, 'verif_e2_run.1': max(K, MT) + 1, 'verif_e2_run.2': max(K, MT) + 1, 'verif_mword.0': MM + 1, 'verif_enabled.0': MM + 1,
+    us = {'verif_e2_run.0': max(K, MT) + 1, 'verif_e2_run.1': max(K, MT) + 1, 'verif_e2_run.2': max(K, MT) + 1, 'verif_mword.0': MM + 1, 'verif_enabled.0': MM + 1, 'verif_held.0': MM + 1, 'verif_acc.0': 8,
           '_ZNSt18condition_variable10notify_allEv.0': MT + 1, '_ZNSt18condition_variable10notify_oneEv.0': MT + 1}
     cmd = ['cbmc', mc, os.path.join(RT, 'stubs.c')] + [os.path.join(VERIF, 'harness', s) for s in ob.extra_c_files] + \
           ['-I' + RT, '--function', 'verif_e2_entry', '--unwind', str(ob.unwind)] + CBMC + dflags(cd)
@@ -87,7 +88,7 @@ def cbmc(rn, ob, mc):
     if usd: cmd += ['--unwindset', ','.join('%s:%d' % kv for kv in usd.items())]
     if ob.solver == 'kissat': cmd += ['--external-sat-solver', 'kissat']
     elif ob.solver == 'cadical': cmd += ['--sat-solver', 'cadical']
-    rc, so, se, w, rss = run(cmd, timeout=ob.timeout * float(os.environ.get('VERIF_TIMEOUT_SCALE', '1')), mem_gb=max(ob.mem_gb * 3, 24))
+    rc, so, se, w, rss = run(cmd, timeout=ob.timeout * float(os.environ.get('VERIF_TIMEOUT_SCALE', '1')), mem_gb=min(max(ob.mem_gb * 3, 24), 56))
     open(os.path.join(d, 'cbmc.out'), 'w').write('CMD: ' + ' '.join(cmd) + '\n' + so + '\n--- stderr ---\n' + se)
     res = dict(cmd=' '.join(cmd), wall_s=round(w, 1), rc=rc)
     if rc is None: res['status'] = 'timeout'; return res
@@ -97,7 +98,15 @@ def cbmc(rn, ob, mc):
     if st: res['solver_s'] = round(sum(st), 2)
     m = re.search(r'size of program expression: (\d+) steps', so)
     if m: res['symex_steps'] = int(m.group(1))
-    props = re.findall(r'^\[([^\]]+)\] (?:line \d+ )?(.*): (SUCCESS|FAILURE|UNKNOWN)$', so, re.M)
+    props = re.findall(r'^\[([^\]]+)\] (?:line \d+ )?(.*): (SUCCESS|FAILURE|UNKNOWN|ERROR)$', so, re.M)
+    # a verdict exists only if cbmc itself says so: exit 0 + VERIFICATION SUCCESSFUL, or exit 10 + VERIFICATION FAILED;
+    # anything else (VERIFICATION ERROR, solver out of memory, properties left in state ERROR/UNKNOWN) is no verdict
+    ok_pass = rc == 0 and 'VERIFICATION SUCCESSFUL' in so
+    ok_fail = rc == 10 and 'VERIFICATION FAILED' in so
+    if props and not (ok_pass or ok_fail) or any(r_ in ('ERROR', 'UNKNOWN') for _, _, r_ in props):
+        res['status'] = 'oom' if ('out of memory' in (so + se).lower() or 'bad_alloc' in (so + se)) else 'error'
+        res['detail'] = 'cbmc returned no verdict (rc=%s): %s' % (rc, ' '.join(l for l in so.split('\n') if 'ERROR' in l or 'memory' in l.lower())[:300])
+        return res
     if 'VERIFICATION' not in so or not props:
         res['status'] = 'error'; res['detail'] = so[-1200:] + se[-1200:]
         if 'out of memory' in (so + se).lower() or 'bad_alloc' in (so + se): res['status'] = 'oom'
@@ -129,6 +138,31 @@ def native_sched_bin(rn, ob):
     rc, so, se, w, _ = run(cmd, timeout=600)
     if rc != 0: raise BuildError('native schedule-replay build failed:\n%s' % se[-2500:])
     return out
+
+
+def replay_tsan(rn, ob, path, sched):
+    """C11: confirm a race reported by the lockset monitor with ThreadSanitizer on the real code, free-running threads"""
+    with open(path, 'w') as f:
+        f.write('# replay for obligation %s entry %s\n# data race reported by the lockset monitor; schedule of the counterexample follows (informational)\n' % (ob.name, ob.entry))
+        for v in sched: f.write('%d\n' % v)
+    d = rn.odir(ob)
+    out = os.path.join(d, 'native_tsan')
+    hd = dict(ob.libdefs); hd.update(ob.defs); hd['VERIF_ENTRY'] = ob.entry
+    if ob.e2_setup: hd['VERIF_SETUP'] = ob.e2_setup
+    # the race itself does not depend on the model's bounds: confirm on a busier configuration (more workers and
+    # tasks, tasks that take a moment), where unordered access pairs actually occur in free runs
+    hd.update({'W': 2, 'T': 6, 'VERIF_TSAN': None}); hd.pop('QCAP', None)
+    srcs = [os.path.join(VERIF, 'harness', ob.harness), os.path.join(RT, 'native_tsan.cpp')] + [os.path.join(REPO, t) for t in ob.tus]
+    cmd = ['g++', '-std=c++17', '-O1', '-g', '-w', '-fsanitize=thread', '-I' + os.path.join(VERIF, 'harness')] + core.INCLUDES + ['-D' + core.GUARD] + dflags(hd) + srcs + ['-o', out, '-lpthread']
+    rc, so, se, w, _ = run(cmd, timeout=600)
+    if rc != 0: raise BuildError('TSan build failed:\n%s' % se[-2000:])
+    env = dict(os.environ); env['TSAN_OPTIONS'] = 'halt_on_error=0 report_signal_unsafe=0'
+    for i in range(30):
+        rc, so, se, w, _ = run([out], timeout=30, env=env)
+        if 'ThreadSanitizer: data race' in se or 'ThreadSanitizer: data race' in so:
+            m = re.search(r'WARNING: ThreadSanitizer: data race[^\n]*\n(?:.*\n){0,6}', se + so)
+            return dict(outcome='confirmed', how='ThreadSanitizer on the real code (run %d): %s' % (i + 1, (m.group(0) if m else 'data race')[:400].replace('\n', ' | ')), rc=rc)
+    return dict(outcome='unconfirmed', how='ThreadSanitizer reports no data race in 30 free runs of the real code', rc=rc)
 
 
 def replay(rn, ob, sched, path):
@@ -175,7 +209,7 @@ def process(rn, ob, gate, kf_open, prop, replay_dir):
                 sched = schedule_of(tr)
                 is_bound = ('unwinding assertion' in f['desc'] or 'VERIF model:' in f['desc'] or 'modelled bound' in f['desc'])
                 path = os.path.join(replay_dir, '%s.%s.replay' % (ob.name, re.sub(r'[^A-Za-z0-9_.]', '_', f['id'])))
-                try: rp = replay(rn, ob, sched, path)
+                try: rp = replay_tsan(rn, ob, path, sched) if 'data race' in f['desc'] else replay(rn, ob, sched, path)
                 except BuildError as e: rp = dict(outcome='unconfirmed', how='native build failed: ' + str(e)[:400])
                 ce = dict(property=f['id'], desc=f['desc'], schedule=sched[:80], replay=rp, replay_file=path, bound_property=is_bound)
                 rec['counterexamples'].append(ce)
